@@ -46,7 +46,10 @@ def run_job(scratch, job, binary="vworker"):
     t0 = time.time()
     hard = job.get("budget", 60) * 3 + 120
     try:
-        p = subprocess.run([os.path.join(scratch, binary), "-job", jf], env=dict(ENV, GOMAXPROCS="1"), stdout=subprocess.PIPE, stderr=subprocess.PIPE, text=True, timeout=hard)
+        exe = os.path.join(scratch, binary)
+        if job.get("race") and os.path.exists(os.path.join(scratch, "rb", binary)):
+            exe = os.path.join(scratch, "rb", binary)  # plans with "race_too": second, race-instrumented build
+        p = subprocess.run([exe, "-job", jf], env=dict(ENV, GOMAXPROCS="1"), stdout=subprocess.PIPE, stderr=subprocess.PIPE, text=True, timeout=hard)
         out = p.stdout.strip().splitlines()
         res = json.loads(out[-1]) if out else {"error": "no output: " + p.stderr[-2000:]}
         if p.returncode not in (0, 2) and not res.get("error"):
@@ -120,6 +123,8 @@ def main():
         plan = J.plan(prop, a.tier, seed)
         race = plan.get("race", False)
         tb = build(scratch, race=race, cli=plan.get("cli", False), native=plan.get("native", False))
+        if plan.get("race_too"):
+            tb += build(scratch + "/rb", race=True)
         rdir = os.path.join(V, "replays", prop)
         shutil.rmtree(rdir, ignore_errors=True)
         ctx = {"scratch": scratch, "run_job": lambda job: run_job(scratch, job), "pool": a.jobs, "replay_dir": rdir, "tier": a.tier, "only": a.only, "seed": seed}
